@@ -41,12 +41,19 @@ def run(res, tier, br, model_ok=True, search=False):
         ("sub.c", "#define N 1\n#define N_MAX 2\n#define MAX_N 3\n#define _GNU_SRC 4\n#define __B_LEN 5\n\nint\tcount(int counter, int count_it, int recount)\n{\n"
                   "\treturn (counter + count_it + recount + N + N_MAX + MAX_N + _GNU_SRC + __B_LEN);\n}\n"),
     ]
+    bases += [
+        # macros as operands of #if / #elif expressions, variables next to `*` and `&`
+        ("cond.c", "#define ENABLED 1\n#define LEVEL 2\n#define VERBOSE 0\n\n#if ENABLED == 1\n# define A_MODE 1\n#elif ENABLED && LEVEL > 1\n# define A_MODE 2\n#endif\n"
+                   "#if VERBOSE\n# define B_MODE 3\n#endif\n#if !defined(LEVEL) || (VERBOSE + ENABLED) * 2 > LEVEL\n# define C_MODE 4\n#endif\n\n"
+                   "int\tscale(int delta, int speed, int *count)\n{\n\tint\tres;\n\n\tres = delta * speed;\n\tres = res + delta * *count;\n\tres = (delta) * speed & *count;\n"
+                   "\treturn (res * delta);\n}\n"),
+    ]
     bases += families.repo_samples() if big else families.repo_samples()[::4]
     for name, src in bases:
         o0, d0, _ = meta.diags(name, src)
         if o0 not in ("ok", "fatal"):
             continue
-        for _ in range(8 if big else 4):
+        for _ in range(8 if big else (10 if name in ('cond.c', 'sub.c', 'ft.h') else 4)):
             rn = meta.renaming(src, name, rng, keywords)
             if not rn:
                 break
